@@ -5,6 +5,7 @@ import (
 	"fmt"
 	"os"
 	"runtime"
+	"syscall"
 	"sort"
 	"testing"
 	"time"
@@ -386,6 +387,9 @@ func RunWorker(t *testing.T) {
 	if err := json.Unmarshal(b, &job); err != nil {
 		t.Fatal(err)
 	}
+	// safety net: this sandbox has no per-process memory limit; cap the address space so that a runaway
+	// allocation kills this worker (exit 2 in the driver) instead of the whole machine
+	_ = syscall.Setrlimit(syscall.RLIMIT_AS, &syscall.Rlimit{Cur: 24 << 30, Max: 24 << 30})
 	w := &Worker{t: t, Job: job, known: map[string]bool{}, seen: map[string]bool{}, start: time.Now()}
 	w.Out = WorkerOut{Property: job.Property, Faults: map[string]int{}, Probes: map[string]int{}, Counters: map[string]int{}, VioCounts: map[string]int{}, Exhaustive: map[string]interface{}{}}
 	for _, k := range job.Known {
